@@ -1,21 +1,164 @@
 (* C14 -- migrating a legacy (peewee v2) database to the SQLite store loses nothing.
    Property statements only: each theorem is closed by [exact <lemma>] and followed by
-   Print Assumptions.  Model: Model/Migration.v over Model/PeeweeStore.v and
-   Model/SqliteStore.v; proofs: Proofs/Migration*.v. *)
-From AwVerif Require Import Base.Prelude Model.StoreBase Model.SqliteStore Model.PeeweeStore
-  Model.Migration.
+   Print Assumptions.  Model: Model/Migration.v (+ Model/MigrationCommit.v) over
+   Model/PeeweeStore.v and Model/SqliteStore.v; proofs: Proofs/Migration*.v.
 
-(* Non-vacuity: a legacy store with two buckets (ids 10 and 11; the second without name and
-   data), events with a tie, a zero-length event and an id hole left by a delete; the
-   first start of the testing-profile sqlite store next to its legacy file migrates it. *)
+   Vocabulary (Proofs/MigrationCopy.v, MigrationNames.v):
+     payload e      = (ts e, dur e, data e)          what the property compares per event
+     pw_view / sq_view c b = Some (metadata, events in table order) of bucket b, None if absent
+     store_files    = the eight names the two stores create in the data dir
+                      (peewee-sqlite[-testing].v2.db, sqlite[-testing].v1.db and its -shm / -wal)
+     legacy_match t n = n.split(".")[0] == "peewee-sqlite"+("-testing" if t) and n.split(".")[1] == "v2" *)
+From AwVerif Require Import Base.Prelude Model.StoreBase Model.SqliteStore Model.PeeweeStore
+  Model.Migration Model.MigrationCommit
+  Proofs.MigrationNames Proofs.MigrationCopy Proofs.MigrationOpen Proofs.MigrationDurable.
+From AwVerif Require Model.Commit.
+From Coq Require Import Permutation.
+
+(* ---- trigger ---- *)
+
+(* For the file names the two stores actually use: the first construction of
+   SqliteStorage(testing) at the default path runs the migration iff its own file is not
+   there yet and the legacy file of the SAME profile is; the other profile's legacy file,
+   or a new-format file alone, never triggers.  It never raises. *)
+Theorem C14_trigger : forall testing listing,
+  (forall n, In n listing -> In n store_files) ->
+  exists b, sq_init_migrates testing DefaultPath listing = Ok b /\
+            (b = true <-> ~ In (sq_filename testing) listing /\ In (pw_filename testing) listing).
+Proof. exact trigger_store_names_iff. Qed.
+Print Assumptions C14_trigger.
+
+(* Arbitrary directory contents: the decision is the (name, "v2") test on some entry,
+   provided no entry is exactly the dot-less name "peewee-sqlite[-testing]". *)
+Theorem C14_trigger_general : forall testing listing,
+  ~ In (pw_ds_name testing) listing ->
+  sq_init_migrates testing DefaultPath listing =
+  Ok (negb (existsb (name_eqb (sq_filename testing)) listing) && existsb (legacy_match testing) listing).
+Proof. exact trigger_general. Qed.
+Print Assumptions C14_trigger_general.
+
+(* ... and that proviso is needed: with such an entry the constructor raises IndexError
+   (the sqlite file exists by then, so the next start does not migrate either). *)
+Theorem C14_trigger_dotless_name_raises : forall testing,
+  sq_init_migrates testing DefaultPath [pw_ds_name testing; pw_filename testing] = Err IndexError.
+Proof. exact trigger_index_error. Qed.
+Print Assumptions C14_trigger_dotless_name_raises.
+
+(* Normal and testing never cross, whatever else the directory holds. *)
+Theorem C14_trigger_never_cross : forall testing listing,
+  (forall n, In n listing -> component0 n <> pw_ds_name testing) ->
+  sq_init_migrates testing DefaultPath listing = Ok false.
+Proof. exact trigger_never_cross. Qed.
+Print Assumptions C14_trigger_never_cross.
+
+Theorem C14_trigger_custom_path : forall testing e listing,
+  sq_init_migrates testing (CustomPath e) listing = Ok false.
+Proof. exact trigger_custom_path. Qed.
+Print Assumptions C14_trigger_custom_path.
+
+Theorem C14_trigger_existing_file : forall testing listing,
+  In (sq_filename testing) listing -> sq_init_migrates testing DefaultPath listing = Ok false.
+Proof. exact trigger_existing_file. Qed.
+Print Assumptions C14_trigger_existing_file.
+
+(* ---- the copy ---- *)
+
+(* For every legacy store whose bucket ids are distinct (id is UNIQUE in bucketmodel):
+   the migration into a fresh store terminates without an exception; the new store lists
+   exactly the legacy buckets (same ids, same order); every bucket has the same metadata
+   (type, client, hostname, created, name, data) and its events are the legacy events up to
+   order and ids: the same multiset of (instant, duration, data).  A bucket the legacy
+   store does not have is not in the new store. *)
+Theorem C14_lossless : forall pw,
+  NoDup (map pb_id (pw_buckets pw)) ->
+  exists sq,
+    migrate pw sq_init = (pw_open pw, sq, Ok tt) /\
+    map br_id (sq_buckets sq) = map pb_id (pw_buckets pw) /\
+    forall b,
+      match pw_view pw b with
+      | Some (m, es) => exists es', sq_view sq b = Some (m, es') /\
+                                    Permutation (map payload es') (map payload es)
+      | None => sq_view sq b = None
+      end.
+Proof. exact migrate_lossless. Qed.
+Print Assumptions C14_lossless.
+
+(* None dropped and none duplicated: per bucket the number of events is the same and every
+   (instant, duration, data) triple occurs exactly as often as in the legacy bucket. *)
+Theorem C14_no_duplicates : forall pw,
+  NoDup (map pb_id (pw_buckets pw)) ->
+  exists sq,
+    migrate pw sq_init = (pw_open pw, sq, Ok tt) /\
+    forall b m es, pw_view pw b = Some (m, es) ->
+      exists es', sq_view sq b = Some (m, es') /\
+                  length es' = length es /\
+                  forall p, count_occ payload_eq_dec (map payload es') p =
+                            count_occ payload_eq_dec (map payload es) p.
+Proof. exact migrate_counts. Qed.
+Print Assumptions C14_no_duplicates.
+
+(* The legacy store is only read: whatever the legacy tables and the new store are (also
+   when the copy fails half way), the tables the function leaves are the ones it found.
+   (Model level; the real PeeweeStorage constructor's create_table(safe=True) /
+   auto_migrate are I/O outside the model: SHA-256 oracle of the harness.) *)
+Theorem C14_legacy_readonly : forall pw sq,
+  let pw' := fst (fst (migrate pw sq)) in
+  pw_buckets pw' = pw_buckets pw /\ pw_events pw' = pw_events pw.
+Proof. exact migrate_tables_unchanged. Qed.
+Print Assumptions C14_legacy_readonly.
+
+(* ---- trigger + copy: the statement of the property ---- *)
+Theorem C14_end_to_end : forall testing listing pw existing,
+  ~ In (pw_ds_name testing) listing ->
+  ~ In (sq_filename testing) listing ->
+  In (pw_filename testing) listing ->
+  NoDup (map pb_id (pw_buckets pw)) ->
+  exists sq,
+    sqlite_open testing DefaultPath listing pw existing = (pw_open pw, sq, Ok tt) /\
+    map br_id (sq_buckets sq) = map pb_id (pw_buckets pw) /\
+    forall b,
+      match pw_view pw b with
+      | Some (m, es) => exists es', sq_view sq b = Some (m, es') /\
+                                    Permutation (map payload es') (map payload es)
+      | None => sq_view sq b = None
+      end.
+Proof. exact sqlite_open_lossless. Qed.
+Print Assumptions C14_end_to_end.
+
+(* Only the other profile's legacy file is there: nothing is copied. *)
+Theorem C14_other_profile_untouched : forall testing listing pw existing,
+  (forall n, In n listing -> n = pw_filename (negb testing)) ->
+  sqlite_open testing DefaultPath listing pw existing = (pw, sq_init, Ok tt).
+Proof. exact sqlite_open_other_profile_only. Qed.
+Print Assumptions C14_other_profile_untouched.
+
+(* ---- durability (commit bookkeeping of Model/Commit.v) ---- *)
+
+(* When the constructor returns from a migration, nothing is left in the open transaction
+   and a fresh connection sees every migrated row: for every lazy-commit flag, every clock,
+   every list of buckets (token of the bucket row, tokens of its event rows). *)
+Theorem C14_migration_durable : forall lazy t0 bs tr,
+  map fst tr = migration_micro bs ->
+  let s := Commit.run lazy (Commit.init [] t0) tr in
+  Commit.pending s = [] /\ Commit.recover s = all_writes bs.
+Proof. exact migration_durable. Qed.
+Print Assumptions C14_migration_durable.
+
+(* ---- non-vacuity ---- *)
+
+(* A legacy store with two buckets (ids 10 and 11; the second without name and data),
+   events with a tie, a zero-length event and an id hole left by a delete; the first start
+   of the testing-profile sqlite store next to both profiles' legacy files migrates it
+   (newest first, new ids), and the hypotheses of C14_end_to_end hold for it. *)
 Definition ex_legacy : pwstate :=
   pw_run pw_init
     [CreateBucket 10 (mkMeta 1 2 3 4 (Some 5) 6); CreateBucket 11 (mkMeta 1 1 1 1 None 0);
      InsertMany 10 [mkEvent None 5000 1000 7; mkEvent None 9000 0 8; mkEvent None 5000 2000 9];
      InsertOne 11 (mkEvent None 1000 1000 1); Delete 10 2; InsertOne 10 (mkEvent None 7000 0 7)].
+Definition ex_listing : list name := [pw_filename true; pw_filename false].
 
 Example C14_nonvacuous :
-  let '(pw', sq, r) := sqlite_open true DefaultPath [pw_filename true; pw_filename false] ex_legacy sq_init in
+  let '(pw', sq, r) := sqlite_open true DefaultPath ex_listing ex_legacy sq_init in
   r = Ok tt /\
   sq_view sq 10 = Some (mkMeta 1 2 3 4 (Some 5) 6,
                         [mkEvent (Some 1) 7000 0 7; mkEvent (Some 2) 5000 1000 7; mkEvent (Some 3) 5000 2000 9]) /\
@@ -24,3 +167,20 @@ Example C14_nonvacuous :
   sq_view sq 11 = Some (mkMeta 1 1 1 1 None 0, [mkEvent (Some 4) 1000 1000 1]) /\
   sq_view sq 12 = None.
 Proof. vm_compute. repeat split; reflexivity. Qed.
+
+Example C14_hypotheses_inhabited :
+  ~ In (pw_ds_name true) ex_listing /\ ~ In (sq_filename true) ex_listing /\
+  In (pw_filename true) ex_listing /\ NoDup (map pb_id (pw_buckets ex_legacy)) /\
+  (forall n, In n ex_listing -> In n store_files).
+Proof.
+  vm_compute. repeat split; try (intuition discriminate); try (left; reflexivity).
+  repeat constructor; cbn; intuition discriminate.
+Qed.
+
+(* the durability theorem's trace hypothesis is met by a two-bucket migration *)
+Example C14_durable_nonvacuous :
+  let bs := [(1, [2; 3]); (4, [])] in
+  let tr := map (fun m => (m, Commit.mkClk 0 0 0)) (migration_micro bs) in
+  map fst tr = migration_micro bs /\
+  Commit.recover (Commit.run true (Commit.init [] 0) tr) = [1; 2; 3; 4].
+Proof. vm_compute. split; reflexivity. Qed.
